@@ -2,6 +2,7 @@ package checks
 
 import (
 	"fmt"
+	"time"
 
 	"verif/mc/core"
 	"verif/mc/env"
@@ -263,7 +264,7 @@ func runC07(x *core.Ctx) {
 }
 
 // c07Tail: the frame followed by a PUBACK and a PINGREQ on the same stream.
-func c07Tail(x *core.Ctx, f CFrame, ref string, pat *env.Pattern) {
+func c07TailRun(f CFrame, ref string, pat *env.Pattern) *core.Finding {
 	run := func() *core.Finding {
 		resetGlobals()
 		stream := append(append([]byte{}, f.B...), 0x40, 0x02, 0x00, 0x01, 0xc0, 0x00)
@@ -282,6 +283,11 @@ func c07Tail(x *core.Ctx, f CFrame, ref string, pat *env.Pattern) {
 		}
 		return nil
 	}
+	return run()
+}
+
+func c07Tail(x *core.Ctx, f CFrame, ref string, pat *env.Pattern) {
+	run := func() *core.Finding { return c07TailRun(f, ref, pat) }
 	x.Eval("followed-by-more-data")
 	x.R.Traces++
 	x.R.States++
@@ -366,7 +372,20 @@ func c07Explore(x *core.Ctx, f CFrame, ref string, bound, maxZero int, stratum s
 
 func replayC07(c core.Case) *core.Finding {
 	if c.Harness == "c07.tail" {
-		return nil // re-run the check: the frame corpus rebuilds the (possibly megabyte-sized) frame by name
+		// the frame is rebuilt by name (it may have megabytes)
+		x := core.NewCtx("C07", "thorough", 0, 0, 1, time.Now().Add(time.Hour))
+		for _, f := range c07Frames(x) {
+			if f.Name != paramStr(c.Params, "name") {
+				continue
+			}
+			var pat *env.Pattern
+			if _, ok := c.Params["chunk"]; ok {
+				pat = &env.Pattern{Chunk: paramInt(c.Params, "chunk")}
+			}
+			ref, _ := c07Exec(f.B, nil, 0, false, env.KRaw, nil)
+			return c07TailRun(f, ref, pat)
+		}
+		return nil
 	}
 	frame := unhex(c.Frame)
 	ref, _ := c07Exec(frame, nil, 0, false, env.KRaw, nil)
